@@ -6,7 +6,8 @@ RULE = ("MSS boundary values + uniform, both IP versions, MTU 41..65535, base op
         "types incl. invalid and fragments, MTU databases with duplicates and misses; non-trivial = fingerprint accepted the packet; "
         "the impersonated packet is re-fingerprinted and all non-option fields compared")
 GEN_TIE = True     # gates, from_mss and mtu_signatures_match are also TRANSLATED from /repo's source on every run and proved equal to the model
-ASSUMPTIONS = ["the (fragment, type, version, MSS) given to the fingerprint model are those the implementation extracted (C03's tie)"]
+ASSUMPTIONS = ["sniffed packets: (fragment, type, version, MSS) come from the model's own extractor on the bytes; constructed packets and link-layer bases: "
+               "fragment status and type from the input's header bits, version and MSS as the implementation extracted them (C03's tie)"]
 EXHAUSTIVE = {"MSS 1..2000 x both versions through fingerprint_mtu (thorough: 1..65535)": True}
 MSS_VALUES = [1, 2, 99, 100, 536, 1220, 1360, 1400, 1440, 1452, 1460, 8960, 65494, 65495, 65496, 65534, 65535]
 
@@ -53,8 +54,10 @@ def generate(R, tier):
         if R.random() < 0.5:
             spec, p, ty = G.rand_wire_pkt(R, flags=fl & 0x17 if fl & 0x17 else 2)
             spec["flags"] = fl
-            if R.random() < 0.04:
+            if R.random() < 0.08:
                 spec["mf"] = True
+                spec["df"] = R.random() < 0.5
+                spec["evil"] = R.random() < 0.3
             c = {"stream": "sniffed", "mode": "sniffed", "spec": spec, "m": m, "dbm": dbm}
             if p["mss"] and dbm is not None:
                 hit = min(65535, p["mss"] + (40 if spec["v"] == 4 else 60))
@@ -89,20 +92,40 @@ def abstract(opts):
 
 
 def model_cases(cases, impl_res, run_model):
+    from harness import findings
     lines, where = [], []
     out = [dict() for _ in cases]
+    # sniffed packets: the verified extractor reads (fragment, type, version, MSS) from the bytes; nothing is taken from the implementation
+    ex_idx = [i for i, c in enumerate(cases) if c["mode"] == "sniffed" and not c.get("link")]
+    ex = dict(zip(ex_idx, run_model(["extract %d 0 %s" % (W.full(cases[i]["spec"])["v"], W.build(cases[i]["spec"]).hex()) for i in ex_idx])))
     for i, (c, ir) in enumerate(zip(cases, impl_res)):
         if not isinstance(ir, dict) or "before" not in ir:
             out[i] = {"skipped": True}
             continue
-        if "gate" in ir:
-            g = ir["gate"]
-            if c["dbm"] is None:
-                dbs = "-1"
+        if c["dbm"] is None:
+            dbs = "-1"
+        else:
+            recs = db_lines(c["dbm"])[1]
+            dbs = "%d %s" % (len(recs), " ".join("%d %d" % r for r in recs)) if recs else "0"
+        if i in ex and not ("nogate" in ir and findings.scapy_ao_short(bytes.fromhex(W.full(c["spec"])["opts"]))):
+            e = ex[i]
+            if isinstance(e, dict) and "ok" in e:
+                k = e["ok"]
+                lines.append("fp_mtu %s %d %d %d %d" % (dbs, int(k["ip"]["is_fragment"]), k["tcp"]["type"], k["ip"]["version"], k["tcp"]["options"]["mss"]))
+                where.append((i, "fp"))
             else:
-                recs = db_lines(c["dbm"])[1]
-                dbs = "%d %s" % (len(recs), " ".join("%d %d" % r for r in recs)) if recs else "0"
-            lines.append("fp_mtu %s %d %d %d %d" % (dbs, int(g["frag"]), g["type"], g["ver"], g["mss"]))
+                out[i]["fp"] = {"err": "PacketError"}
+        elif "gate" in ir:
+            g = ir["gate"]
+            # constructed packets / link-layer bases: fragment status and segment type from the INPUT, version and MSS as extracted
+            if c["mode"] == "sniffed":
+                sp = W.full(c["spec"])
+                frag = bool(sp["v"] == 4 and (sp["mf"] or sp["frag"]))
+                ty = sp["flags"] & 0x17
+            else:
+                frag = bool(c["v"] == 4 and c.get("frag"))
+                ty = c["flags"] & 0x17
+            lines.append("fp_mtu %s %d %d %d %d" % (dbs, int(frag), ty, g["ver"], g["mss"]))
             where.append((i, "fp"))
         ab, _ = abstract(ir["before"])
         lines.append("imp_mtu %d %d %d %s" % (c["m"], ir["ver"], len(ab), " ".join("%d %d" % x for x in ab)))
